@@ -5,6 +5,7 @@
 mod c19;
 mod c12;
 mod c14;
+mod slowproc;
 mod sysvars;
 mod content;
 mod dump;
@@ -130,10 +131,22 @@ fn main() {
         }
         "c14" => c14::run(&args, &mut model),
         "c20" => http::run(&args, &mut model),
-        "c16" => timer::run(&args, &mut model),
+        "c16" => {
+            let mut r = timer::run(&args, &mut model);
+            if args.replay.is_none() {
+                slowproc::run("C16", &mut r);
+            }
+            r
+        }
         "c17" => locks::run(&args, &mut model),
         "c04" => reader::run(&args, &mut model),
-        "c13" => conc::run_c13(&args, &mut model),
+        "c13" => {
+            let mut r = conc::run_c13(&args, &mut model);
+            if args.replay.is_none() {
+                slowproc::run("C13", &mut r);
+            }
+            r
+        }
         "c15" => conc::run_c15(&args, &mut model),
         "c10" | "c11" | "expr-child" => expr::run(&args, &mut model),
         "c05" | "c18" => codec::run(&args, &mut model),
